@@ -83,7 +83,7 @@ func c20Run(c *fw.Ctx, i int) {
 	defer target.Close()
 	conf := srv.Conf{RtmpGop: 1 + r.Intn(2), Flv: true, FlvGop: 1, Ts: true, TsGop: 1, Hls: true, HlsFragMs: 500, HlsFragNum: 3, HlsDelThr: 1, HlsCleanup: r.Intn(3),
 		Rtsp: true, WsRtsp: true, RecFlv: true, RecTs: true, Api: true, PushAddrs: []string{target.Addr}, MergeWrite: []int{0, 2048}[r.Intn(2)], DummyAudio: r.Intn(2) == 0,
-		HlsHashKey: "k"}
+		HlsHashKey: "k", GroupLogSec: 1}
 	s, err := srv.Start(conf, root)
 	if err != nil {
 		c.Inconclusive("server start: %v", err)
@@ -169,11 +169,16 @@ func c20Run(c *fw.Ctx, i int) {
 			}
 		})
 	}
+	var fresh int64
 	actor("customize-pub", func(rr *rand.Rand) {
 		if atomic.LoadInt32(&disposed) == 1 {
 			return
 		}
 		name := names[rr.Intn(len(names))]
+		if rr.Intn(2) == 0 {
+			// a never-used stream name: creates (and later erases) a group
+			name = fmt.Sprintf("fresh%d", atomic.AddInt64(&fresh, 1))
+		}
 		ctx, err := s.Lal.AddCustomizePubSession(name)
 		if err != nil {
 			return
@@ -464,7 +469,7 @@ func init() {
 		Batches:            func(string) int { return 16 },
 		CaseTimeout:        func(tier string) time.Duration { return 3 * time.Minute },
 		TimeoutIsViolation: true,
-		Rule: "worker built with -race (checkptr on); one lal server per process with every output enabled (HLS with sub-session hash key, FLV/TS recording, RTSP, WS-RTSP, relay push to a stub target that refuses every third connection, API); GOMAXPROCS ∈ {1,2,4,16}; liveness sweep every 2–4 s. For 12 s (thorough 40 s) concurrent actors churn on three stream names: 3 RTMP publishers, RTSP publishers over TCP and UDP, a customize publisher, start_rtp_pub + PS over UDP/TCP (incl. a second TCP connection), 4 subscriber actors (RTMP, HTTP-FLV, WS-FLV, HTTP-TS, RTSP TCP/UDP, HLS playlist+segments, consumers that never read), 4 API actors (stat group / all_group / lal_info, kick of listed pub/sub/pull ids, start/stop_relay_pull against an origin that refuses / closes / serves, add_ip_blacklist, web UI); Dispose at a seeded instant 0.2–1.7 s before the actors stop. Oracles: every `WARNING: DATA RACE` block in the child's log whose accesses touch lal or naza frames is a violation (signature = unordered pair of innermost lal/naza functions); `fatal error: concurrent map…`, `send on closed channel`, `all goroutines are asleep` are crashes; ≥3 consecutive API calls timing out (5 s each) while the server runs, Dispose not returning within 20 s, or a case exceeding its watchdog are deadlock violations with the goroutine dump. cell = GOMAXPROCS.",
+		Rule: "worker built with -race (checkptr on); one lal server per process with every output enabled (HLS with sub-session hash key, periodic group debug log every second, FLV/TS recording, RTSP, WS-RTSP, relay push to a stub target that refuses every third connection, API); GOMAXPROCS ∈ {1,2,4,16}; liveness sweep every 2–4 s. For 12 s (thorough 40 s) concurrent actors churn on three stream names: 3 RTMP publishers, RTSP publishers over TCP and UDP, a customize publisher, start_rtp_pub + PS over UDP/TCP (incl. a second TCP connection), 4 subscriber actors (RTMP, HTTP-FLV, WS-FLV, HTTP-TS, RTSP TCP/UDP, HLS playlist+segments, consumers that never read), 4 API actors (stat group / all_group / lal_info, kick of listed pub/sub/pull ids, start/stop_relay_pull against an origin that refuses / closes / serves, add_ip_blacklist, web UI); Dispose at a seeded instant 0.2–1.7 s before the actors stop. Oracles: every `WARNING: DATA RACE` block in the child's log whose accesses touch lal or naza frames is a violation (signature = unordered pair of innermost lal/naza functions); `fatal error: concurrent map…`, `send on closed channel`, `all goroutines are asleep` are crashes; ≥3 consecutive API calls timing out (5 s each) while the server runs, Dispose not returning within 20 s, or a case exceeding its watchdog are deadlock violations with the goroutine dump. cell = GOMAXPROCS.",
 		Assumptions: []string{"GORACE=halt_on_error=0 exitcode=0 so that one report does not hide the rest", "a race between two harness-only frames is a harness fault, not a finding"},
 		MinCells: 2,
 		Run:      c20Run,
